@@ -138,61 +138,80 @@ def guard_table(prog, res, q, spec, classes):
     return f, rows
 
 
+def _internal_helpers(prog, f, R):
+    """[(helper Func, substitution of its this/argN by the caller's renderings, call node)] for the
+    file-local helpers f calls"""
+    out = []
+    for c in f.calls():
+        cf = prog.funcs.get(c['callee'].get('usr')) if c['callee'].get('inrepo') else None
+        if cf is None or cf.body is None or not (cf.rec.get('internal') or '(anonymous namespace)' in cf.qname):
+            continue
+        sub = {'arg%d' % k: re.sub(r'^\*\((.*)\)$', r'\1', R.render(a)) for k, a in enumerate(f.call_args(c))}
+        if f.call_obj(c) is not None:
+            sub['this'] = re.sub(r'^\*\((.*)\)$', r'\1', R.render(f.call_obj(c)))
+        out.append((cf, sub, c))
+    return out
+
+
 def label_rule(prog, res):
-    f = prog.fn('ezc3d::c3d::frame', nparams=2)
-    R = Renderer(f)
-    g = f.events()
-    mut = [n for n in f.calls() if n['callee']['qname'] == 'ezc3d::DataNS::Data::frame']
+    from codec import substitute
+    f0 = prog.fn('ezc3d::c3d::frame', nparams=2)
+    R0 = Renderer(f0)
+    g0 = f0.events()
+    mut = [n for n in f0.calls() if n['callee']['qname'] == 'ezc3d::DataNS::Data::frame']
     okl = False
     why = 'no loop over POINT:LABELS that looks every label up in the frame'
     partial = False     # the look-up was recognised and is demonstrably incomplete / wrongly classified
-    for t in f.all_nodes({'CXXTryStmt'}):
-        calls = [f.nodes[x] for x in f.descendants(t['body']) if f.nodes[x]['k'] == 'CXXMemberCallExpr' and f.nodes[x]['callee']['name'] == 'pointIdx']
-        if not calls:
-            continue
-        c = calls[0]
-        la = loops_around(f, t['id'], R)
-        lf = la[0] if la else None
-        if not lf or lf['name'] is None:
-            why = 'label look-up is not inside a counted loop over the labels'
-            continue
-        lab = 'this._parameters.group("POINT").parameter("LABELS").valuesAsString()'
-        if lf['bound'] != lab + '.size':
-            why = 'label loop runs to %s, not POINT:LABELS.size' % lf['bound']
-            partial = True
-            continue
-        fs = [lf['node']]
-        if R.render(f.call_obj(c)) != 'arg0._points' or R.render(c['args'][0]) != '%s[local:%s]' % (lab, lf['name']):
-            why = 'look-up is %s.pointIdx(%s)' % (R.render(f.call_obj(c)), R.render(c['args'][0]))
-            partial = True
-            continue
-        hs = [f.nodes[h] for h in t['handlers']]
-        good = False
-        for h in hs:
-            if h.get('catch_t') in ('std::invalid_argument', 'std::logic_error', 'std::exception') or h.get('catch_all'):
-                ths = [f.nodes[x] for x in f.descendants(h['body']) if f.nodes[x]['k'] == 'CXXThrowExpr']
-                hb = f.nodes[h['body']]
-                last = f.nodes[f.strip(hb['ch'][-1], 'all')] if hb['ch'] else None
-                if ths and all(x.get('throw_t') == 'std::invalid_argument' or x.get('rethrow') for x in ths) and last is not None and last['k'] == 'CXXThrowExpr':
-                    good = True
-                break
-        if not good:
-            why = 'a missing label does not end in std::invalid_argument'
-            partial = True
-            continue
-        lv = g.vertex_of.get(fs[0]) or g.vertex_of.get(f.nodes[fs[0]].get('cond', -1))
-        cv = g.vertex_of.get(c['id'])
-        if mut and cv is not None and all(g.vertex_of.get(m['id']) in g.reach([cv]) for m in mut) and \
-                not any(g.vertex_of.get(m['id']) is not None and cv in g.reach([g.vertex_of[m['id']]]) for m in mut):
-            okl = True
+    helpers = _internal_helpers(prog, f0, R0)
+    for f, sub, callnode in [(f0, {}, None)] + helpers:
+        R = Renderer(f)
+        rr = (lambda i, R=R, sub=sub: re.sub(r'^\*\((.*)\)$', r'\1', substitute(R.render(i), sub)) if sub else R.render(i))
+        for t in f.all_nodes({'CXXTryStmt'}):
+            calls = [f.nodes[x] for x in f.descendants(t['body']) if f.nodes[x]['k'] == 'CXXMemberCallExpr' and f.nodes[x]['callee']['name'] == 'pointIdx']
+            if not calls:
+                continue
+            c = calls[0]
+            la = loops_around(f, t['id'], R)
+            lf = la[0] if la else None
+            if not lf or lf['name'] is None:
+                why = 'label look-up is not inside a counted loop over the labels'
+                continue
+            lab = 'this._parameters.group("POINT").parameter("LABELS").valuesAsString()'
+            bound = substitute(lf['bound'], sub) if sub else lf['bound']
+            if bound != lab + '.size':
+                why = 'label loop runs to %s, not POINT:LABELS.size' % bound
+                partial = True
+                continue
+            if rr(f.call_obj(c)) != 'arg0._points' or rr(c['args'][0]) != '%s[local:%s]' % (lab, lf['name']):
+                why = 'look-up is %s.pointIdx(%s)' % (rr(f.call_obj(c)), rr(c['args'][0]))
+                partial = True
+                continue
+            hs = [f.nodes[h] for h in t['handlers']]
+            good = False
+            for h in hs:
+                if h.get('catch_t') in ('std::invalid_argument', 'std::logic_error', 'std::exception') or h.get('catch_all'):
+                    ths = [f.nodes[x] for x in f.descendants(h['body']) if f.nodes[x]['k'] == 'CXXThrowExpr']
+                    hb = f.nodes[h['body']]
+                    last = f.nodes[f.strip(hb['ch'][-1], 'all')] if hb['ch'] else None
+                    if ths and all(x.get('throw_t') == 'std::invalid_argument' or x.get('rethrow') for x in ths) and last is not None and last['k'] == 'CXXThrowExpr':
+                        good = True
+                    break
+            if not good:
+                why = 'a missing label does not end in std::invalid_argument'
+                partial = True
+                continue
+            # the look-up (or the call of the helper that holds it) comes before the store, never after
+            cv = g0.vertex_of.get(c['id']) if f is f0 else g0.vertex_of.get(callnode['id'])
+            if mut and cv is not None and all(g0.vertex_of.get(m['id']) in g0.reach([cv]) for m in mut) and \
+                    not any(g0.vertex_of.get(m['id']) is not None and cv in g0.reach([g0.vertex_of[m['id']]]) for m in mut):
+                okl = True
+    inst = 'frame: every POINT:LABELS entry must be present in the frame'
     if okl:
-        res.ok('label-rule', 'frame: every POINT:LABELS entry must be present in the frame', f.loc(), 'loop over all labels, look-up failure -> std::invalid_argument, before the store', function=f.sig, expr='labels')
-    elif partial or not mentions_with_refusal(f, R, 'parameter("LABELS")'):
-        res.viol('label-rule', 'frame: every POINT:LABELS entry must be present in the frame', f.loc(), why +
-                 ('' if partial else ': nothing in the function tests the frame against POINT:LABELS and refuses'), function=f.sig, expr='labels')
+        res.ok('label-rule', inst, f0.loc(), 'loop over all labels, look-up failure -> std::invalid_argument, before the store', function=f0.sig, expr='labels')
+    elif partial or not (mentions_with_refusal(f0, R0, 'parameter("LABELS")') or any(mentions_with_refusal(h, Renderer(h), 'parameter("LABELS")') for h, _, _ in helpers)):
+        res.viol('label-rule', inst, f0.loc(), why + ('' if partial else ': nothing in the function tests the frame against POINT:LABELS and refuses'), function=f0.sig, expr='labels')
     else:
-        res.undecided('label-rule', 'frame: every POINT:LABELS entry must be present in the frame', f.loc(),
-                      'the labels are tested in a form the rule does not read (%s)' % why, function=f.sig, expr='labels')
+        res.undecided('label-rule', inst, f0.loc(), 'the labels are tested in a form the rule does not read (%s)' % why, function=f0.sig, expr='labels')
 
 
 def mentions_with_refusal(f, R, text):
